@@ -35,8 +35,8 @@ structure Same2 (s s' : St) : Prop where
   live2 : s'.live2 = s.live2
   susp2 : s'.susp2 = s.susp2
   stopped2 : s'.stopped2 = s.stopped2
-  stopped : s'.stopped = s.stopped
   gone : s'.gone = s.gone
+  born2 : s'.born2 = s.born2
 
 /-- the step did not touch the queue nor B's group -/
 def Plain (s s' : St) : Prop :=
@@ -56,7 +56,7 @@ theorem plain_refl (s : St) : Plain s s :=
 
 theorem same2_trans {s s1 s2 : St} (a : Same2 s s1) (b : Same2 s1 s2) : Same2 s s2 :=
   ⟨b.imgs.trans a.imgs, b.f2.trans a.f2, b.chan2.trans a.chan2, b.stream2.trans a.stream2, b.live2.trans a.live2,
-   b.susp2.trans a.susp2, b.stopped2.trans a.stopped2, b.stopped.trans a.stopped, b.gone.trans a.gone⟩
+   b.susp2.trans a.susp2, b.stopped2.trans a.stopped2, b.gone.trans a.gone, b.born2.trans a.born2⟩
 
 theorem plain_trans {s s1 s2 : St} (a : Plain s s1) (b : Plain s1 s2) : Plain s s2 :=
   ⟨same2_trans a.1 b.1, b.2.1.trans a.2.1, b.2.2.1.trans a.2.2.1, b.2.2.2.1.trans a.2.2.2.1, b.2.2.2.2.trans a.2.2.2.2⟩
@@ -107,12 +107,13 @@ structure HsPost (s s' : St) (ok : Bool) : Prop where
   nl : NLA s → NLA s'
   frame : Frame s s'
   dz : s'.dz = false
+  own : s'.stopped = s.stopped ∧ s'.born = s.born
 
 theorem handshake_spec (cfg : Cfg) (s : St) (f : Fault) (h : InvA s) :
     HsPost s (handshake cfg s f).1 (handshake cfg s f).2 := by
   have hfail : ∀ (st : Stream), HsPost s { s with chan := .failure, stream := st, dz := false } false :=
     fun st => ⟨invc_notready h (fun e => by cases e), by simp, by simp, by simp, by simp, Int.le_refl _, Or.inl rfl,
-      fun _ => rfl, id, Or.inl plain_rfl, rfl⟩
+      fun _ => rfl, id, Or.inl plain_rfl, rfl, ⟨rfl, rfl⟩⟩
   have hgc := h.lint.gack_cons
   unfold handshake replicaAckIndex resetReplicaIndex followerReset
   dsimp only
@@ -125,7 +126,7 @@ theorem handshake_spec (cfg : Cfg) (s : St) (f : Fault) (h : InvA s) :
     rename_i heq
     have hc : s.cons = s.F.app := by omega
     refine ⟨invA_mk (invc_ready (st' := .none) (dz' := false) h hc) rfl rfl rfl rfl rfl rfl rfl rfl,
-      fun _ => ⟨rfl, rfl, hc, rfl⟩, ?_, by simp, by simp, Int.le_refl _, Or.inl rfl, fun _ => rfl, id, Or.inl plain_rfl, rfl⟩
+      fun _ => ⟨rfl, rfl, hc, rfl⟩, ?_, by simp, by simp, Int.le_refl _, Or.inl rfl, fun _ => rfl, id, Or.inl plain_rfl, rfl, ⟨rfl, rfl⟩⟩
     intro _
     dsimp only
     split <;> omega
@@ -137,7 +138,7 @@ theorem handshake_spec (cfg : Cfg) (s : St) (f : Fault) (h : InvA s) :
       rw [e]
       refine ⟨invA_mk (invc_follower_reset (st' := .none) (dz' := false) h) rfl rfl rfl rfl rfl rfl rfl rfl,
         fun _ => ⟨rfl, rfl, rfl, rfl⟩, ?_, by simp, by simp, Int.le_refl _, Or.inr rfl, fun x => absurd rfl x,
-        fun n => nlc_follower_reset n hgc, Or.inl plain_rfl, rfl⟩
+        fun n => nlc_follower_reset n hgc, Or.inl plain_rfl, rfl, ⟨rfl, rfl⟩⟩
       intro _
       dsimp only
       rw [if_pos hlt]
@@ -151,7 +152,7 @@ theorem handshake_spec (cfg : Cfg) (s : St) (f : Fault) (h : InvA s) :
         split at hah <;> simp at hah <;> omega
       refine ⟨invA_mk (invc_reset_append (st' := .none) (dz' := false) h (by omega)) rfl rfl rfl rfl rfl rfl rfl rfl,
         fun _ => ⟨rfl, rfl, rfl, rfl⟩, ?_, by simp, by simp, hg, Or.inl rfl, fun _ => rfl, ?_,
-        Or.inr ⟨⟨rfl, rfl, rfl, rfl, rfl, rfl, rfl, rfl, rfl⟩, hk, rfl, rfl, rfl, rfl⟩, rfl⟩
+        Or.inr ⟨⟨rfl, rfl, rfl, rfl, rfl, rfl, rfl, rfl, rfl⟩, hk, rfl, rfl, rfl, rfl⟩, rfl, ⟨rfl, rfl⟩⟩
       · intro _
         dsimp only
         rw [if_neg hge]
@@ -163,7 +164,7 @@ theorem handshake_spec (cfg : Cfg) (s : St) (f : Fault) (h : InvA s) :
       simp only [hah', Bool.false_eq_true, if_false, ackGroup, e, Int.le_refl, and_true, hg, if_true]
       refine ⟨invA_mk (invc_rewind (st' := .none) (dz' := false) h hg hle) rfl rfl rfl rfl rfl rfl rfl rfl,
         fun _ => ⟨rfl, rfl, rfl, rfl⟩, ?_, by simp, by simp, hg, Or.inl rfl, fun _ => rfl,
-        fun n => nlc_rewind n h.fint.ack_app, Or.inl plain_rfl, rfl⟩
+        fun n => nlc_rewind n h.fint.ack_app, Or.inl plain_rfl, rfl, ⟨rfl, rfl⟩⟩
       intro _
       dsimp only
       rw [if_neg hge]
@@ -176,32 +177,33 @@ structure CnPost (s s' : St) (ok : Bool) : Prop where
   ok_ready : ok = true → s'.chan = .ready ∧ s'.stream ≠ .none
   fail : ok = false → s'.chan = .failure
   plain : Plain s s'
+  own : s'.stopped = s.stopped ∧ s'.born = s.born
 
 theorem connect_spec (s : St) (f : Fault) (h : InvA s) (hr : s.chan = .ready) :
     CnPost s (connect s f).1 (connect s f).2 := by
   unfold connect
   split
   · rename_i hs
-    exact ⟨h, ⟨rfl, rfl, rfl, rfl, rfl⟩, fun _ => ⟨hr, hs⟩, by simp, plain_rfl⟩
+    exact ⟨h, ⟨rfl, rfl, rfl, rfl, rfl⟩, fun _ => ⟨hr, hs⟩, by simp, plain_rfl, ⟨rfl, rfl⟩⟩
   · rename_i hs
     have hs' : s.stream = .none := by
       cases hst : s.stream <;> simp_all
     split
-    · exact ⟨invc_notready h (fun e => by cases e), ⟨rfl, rfl, rfl, rfl, rfl⟩, by simp, by simp, plain_rfl⟩
+    · exact ⟨invc_notready h (fun e => by cases e), ⟨rfl, rfl, rfl, rfl, rfl⟩, by simp, by simp, plain_rfl, ⟨rfl, rfl⟩⟩
     · have h' : InvC s.L s.cons s.gack s.F .ready .none s.dz s.stopped (s.imgs.map Img.va) := by
         have h0 := h
         unfold InvA at h0
         rw [hr, hs'] at h0
         exact h0
       exact ⟨invA_mk (invc_connect h') rfl rfl rfl rfl rfl rfl rfl rfl, ⟨rfl, rfl, rfl, rfl, rfl⟩,
-        fun _ => ⟨rfl, by simp⟩, by simp, plain_rfl⟩
+        fun _ => ⟨rfl, by simp⟩, by simp, plain_rfl, ⟨rfl, rfl⟩⟩
 
 /-! ### send phase -/
 
-structure SpPost (s s' : St) (o : Out) : Prop where
+structure SpPost (s s' : St) (o : Out) (f : Fault) : Prop where
   inv : InvA s'
   stream : s'.stream = s.stream
-  label : o ≠ .ignored ∧ (s.dz = false → o ≠ .mismatch)
+  label : o ≠ .ignored ∧ (s.dz = false → f ≠ .put → o ≠ .mismatch)
   olabel : o = .idle ∨ o = .sendfail ∨ o = .recvfail ∨ o = .acked ∨ o = .mismatch
   ackok : s'.gack ≠ s.gack → s'.gack ≤ s'.F.app
   gmono : s.gack ≤ s'.gack
@@ -210,10 +212,11 @@ structure SpPost (s s' : St) (o : Out) : Prop where
   cover : ∀ i, s.gack < i → i ≤ s'.gack → s.F.app < i → i ≤ s'.F.app
   nl : NLA s → NLA s'
   plain : Plain s s'
-  dz : s'.dz = s.dz
+  dz : s.dz = false → f ≠ .put → s'.dz = false
+  own : s'.stopped = s.stopped ∧ s'.born = s.born
 
 theorem sendPhase_spec (s : St) (f : Fault) (h : InvA s) (hr : s.chan = .ready) (hst : s.stopped = false) :
-    SpPost s (sendPhase s f).1 (sendPhase s f).2 := by
+    SpPost s (sendPhase s f).1 (sendPhase s f).2 f := by
   have hl := h.lint
   have hag := h.ackg hst
   have hc1 : -1 ≤ s.cons := lint_cons_ge hl
@@ -233,65 +236,73 @@ theorem sendPhase_spec (s : St) (f : Fault) (h : InvA s) (hr : s.chan = .ready) 
     · -- the request was lost
       exact ⟨invA_mk (invc_consume_fail (st' := s.stream) (dz' := s.dz) h hk hle) rfl rfl rfl rfl rfl rfl rfl rfl, rfl,
         by simp, by simp, by simp, Int.le_refl _, Int.le_refl _, rfl, (fun i a b _ => by dsimp only at b; omega),
-        fun n => nlc_consume n hle, plain_rfl, rfl⟩
+        fun n => nlc_consume n hle, plain_rfl, (fun d _ => d), ⟨rfl, rfl⟩⟩
     · rename_i hs
       have hup : s.stream = .up := by
         cases hst : s.stream <;> simp_all
       by_cases hc : s.cons = s.F.app
       · rw [if_neg (by omega : ¬ (s.cons + 1 ≠ s.F.app + 1))]
-        dsimp only
-        split
-        · -- recv failed
-          exact ⟨invA_mk (invc_deliver (ch' := .failure) (st' := s.stream) (dz' := s.dz) h hc hle hm) rfl rfl rfl rfl rfl rfl rfl rfl,
-            rfl, by simp, by simp, by simp, Int.le_refl _, by simp only [Log.put]; omega, rfl,
-            (fun i a b _ => by dsimp only at b; omega),
-            fun n => nlc_deliver n hc hle hm h.fint.ack_app, plain_rfl, rfl⟩
-        · rw [if_pos (by omega : s.F.app + 1 = s.cons + 1)]
-          unfold ackGroup
-          dsimp only
-          rw [if_pos ⟨by have := hl.gack_cons; omega, by omega⟩]
-          refine ⟨invA_mk (invc_ack (invc_deliver (ch' := s.chan) (st' := s.stream) (dz' := s.dz) h hc hle hm) (a := s.F.app + 1)
-              (by have := hl.gack_cons; omega) (by omega)) rfl rfl rfl rfl rfl rfl rfl rfl, rfl, by simp, by simp, ?_,
-            (show s.gack ≤ s.F.app + 1 by have := hl.gack_cons; omega), by simp only [Log.put]; omega, rfl, ?_,
-            fun n => nlc_ack (a := s.F.app + 1) (nlc_deliver n hc hle hm h.fint.ack_app) (by have := hl.gack_cons; omega), plain_rfl, rfl⟩
-          · intro _
-            simp only [Log.put]; omega
-          · intro i _ b _
-            dsimp only at b
-            simp only [Log.put]; omega
-      · -- the follower's next index is another one: the channel has been disturbed
-        have hd : s.chan = .ready → s.dz = false → s.stream ≠ .broken → False :=
-          fun e d n => hc (h.sync e d n)
+        by_cases hp : f = .put
+        · -- the follower's Put fails: nothing appended, the answer carries -1, the state stays `ready`
+          subst hp
+          simp only [decide_true, if_true, reduceCtorEq, if_false]
+          rw [if_neg (by omega : ¬ ((-1 : Int) = s.cons + 1))]
+          exact ⟨invA_mk (invc_consume_mismatch (ch' := s.chan) h hk hle) rfl rfl rfl rfl rfl rfl rfl rfl, rfl,
+            ⟨by simp, fun _ x => absurd rfl x⟩, by simp, by simp, Int.le_refl _, Int.le_refl _, rfl,
+            (fun i a b _ => by dsimp only at b; omega), fun n => nlc_consume n hle, plain_rfl, (fun _ x => absurd rfl x), ⟨rfl, rfl⟩⟩
+        · have e2 : decide (f = Fault.put) = false := by simpa using hp
+          simp only [e2, Bool.false_eq_true, if_false]
+          split
+          · -- recv failed
+            exact ⟨invA_mk (invc_deliver (ch' := .failure) (st' := s.stream) (dz' := s.dz) h hc hle hm) rfl rfl rfl rfl rfl rfl rfl rfl,
+              rfl, by simp, by simp, by simp, Int.le_refl _, by simp only [Log.put]; omega, rfl,
+              (fun i a b _ => by dsimp only at b; omega),
+              fun n => nlc_deliver n hc hle hm h.fint.ack_app, plain_rfl, (fun d _ => d), ⟨rfl, rfl⟩⟩
+          · rw [if_pos (by omega : s.F.app + 1 = s.cons + 1)]
+            unfold ackGroup
+            dsimp only
+            rw [if_pos ⟨by have := hl.gack_cons; omega, by omega⟩]
+            refine ⟨invA_mk (invc_ack (invc_deliver (ch' := s.chan) (st' := s.stream) (dz' := s.dz) h hc hle hm) (a := s.F.app + 1)
+                (by have := hl.gack_cons; omega) (by omega)) rfl rfl rfl rfl rfl rfl rfl rfl, rfl, by simp, by simp, ?_,
+              (show s.gack ≤ s.F.app + 1 by have := hl.gack_cons; omega), by simp only [Log.put]; omega, rfl, ?_,
+              fun n => nlc_ack (a := s.F.app + 1) (nlc_deliver n hc hle hm h.fint.ack_app) (by have := hl.gack_cons; omega), plain_rfl, (fun d _ => d), ⟨rfl, rfl⟩⟩
+            · intro _
+              simp only [Log.put]; omega
+            · intro i _ b _
+              dsimp only at b
+              simp only [Log.put]; omega
+      · -- the follower's next index is another one: the channel is out of step
+        have hd : s.dz = false → False :=
+          fun d => hc (h.sync hr d (by rw [hup]; intro e; cases e))
         rw [if_pos (by omega : s.cons + 1 ≠ s.F.app + 1)]
         dsimp only
         split
         · exact ⟨invA_mk (invc_consume_fail (st' := s.stream) (dz' := s.dz) h hk hle) rfl rfl rfl rfl rfl rfl rfl rfl, rfl,
             by simp, by simp, by simp, Int.le_refl _, Int.le_refl _, rfl, (fun i a b _ => by dsimp only at b; omega),
-            fun n => nlc_consume n hle, plain_rfl, rfl⟩
+            fun n => nlc_consume n hle, plain_rfl, (fun d _ => d), ⟨rfl, rfl⟩⟩
         · rw [if_neg (by omega : ¬ (s.F.app + 1 = s.cons + 1))]
-          refine ⟨invA_mk (invc_consume_mismatch (ch' := s.chan) h hk hle hd) rfl rfl rfl rfl rfl rfl rfl rfl, rfl,
-            ⟨by simp, ?_⟩, by simp, by simp, Int.le_refl _, Int.le_refl _, rfl, (fun i a b _ => by dsimp only at b; omega),
-            fun n => nlc_consume n hle, plain_rfl, rfl⟩
-          intro d
-          exact (hd hr d (by rw [hup]; intro e; cases e)).elim
+          exact ⟨invA_mk (invc_consume_mismatch (ch' := s.chan) h hk hle) rfl rfl rfl rfl rfl rfl rfl rfl, rfl,
+            ⟨by simp, fun d _ => (hd d).elim⟩, by simp, by simp, Int.le_refl _, Int.le_refl _, rfl,
+            (fun i a b _ => by dsimp only at b; omega), fun n => nlc_consume n hle, plain_rfl, (fun d _ => (hd d).elim), ⟨rfl, rfl⟩⟩
   · dsimp only
     rw [if_pos (by decide)]
-    exact ⟨h, rfl, by simp, by simp, by simp, Int.le_refl _, Int.le_refl _, rfl, (fun i a b _ => by dsimp only at b; omega), id, plain_rfl, rfl⟩
+    exact ⟨h, rfl, by simp, by simp, by simp, Int.le_refl _, Int.le_refl _, rfl, (fun i a b _ => by dsimp only at b; omega), id, plain_rfl, (fun d _ => d), ⟨rfl, rfl⟩⟩
 
 /-! ### one `partition.replica` call -/
 
 /-- what a replica call of follower A guarantees -/
-structure EvPost (s s' : St) (o : Out) : Prop where
+structure EvPost (s s' : St) (o : Out) (f : Fault) : Prop where
   inv : InvA s'
   bnd : s'.chan = .ready → s'.stream ≠ .none
-  label : o ≠ .ignored ∧ (s.dz = false → s.chan = .ready → o ≠ .mismatch) ∧ (s.chan ≠ .ready → o ≠ .mismatch)
+  label : o ≠ .ignored ∧ (s.dz = false → s.chan = .ready → f ≠ .put → o ≠ .mismatch) ∧ (s.chan ≠ .ready → f ≠ .put → o ≠ .mismatch)
   ackok : s'.gack ≠ s.gack → s'.gack ≤ s'.F.app
   gmono : s.gack ≤ s'.gack
   fack : s'.F.ack = s.F.ack ∨ s'.F.ack = s.gack
   cover : ∀ i, s.gack < i → i ≤ s'.gack → i ≤ s'.F.app
   nl : NLA s → NLA s'
   frame : Frame s s'
-  dzkeep : s.dz = false → s'.dz = false
+  dzkeep : s.dz = false → f ≠ .put → s'.dz = false
+  own : s'.stopped = s.stopped ∧ s'.born = s.born
 
 structure IrPost (s s' : St) (ok : Bool) : Prop where
   inv : InvA s'
@@ -306,6 +317,7 @@ structure IrPost (s s' : St) (ok : Bool) : Prop where
   nl : NLA s → NLA s'
   frame : Frame s s'
   dzkeep : s.dz = false → s'.dz = false
+  own : s'.stopped = s.stopped ∧ s'.born = s.born
 
 theorem isReady_spec (cfg : Cfg) (s : St) (f : Fault) (h : InvA s) :
     IrPost s (isReady cfg s f).1 (isReady cfg s f).2 := by
@@ -313,18 +325,18 @@ theorem isReady_spec (cfg : Cfg) (s : St) (f : Fault) (h : InvA s) :
   split
   · rename_i hr
     exact ⟨h, fun _ => hr, fun _ x => absurd hr x, fun _ => rfl, by simp, by simp, Int.le_refl _, Or.inl rfl, fun _ => rfl, id,
-      Or.inl plain_rfl, id⟩
+      Or.inl plain_rfl, id, ⟨rfl, rfl⟩⟩
   split
   · rename_i hn _
     exact ⟨invc_notready h (fun e => by cases e), by simp, by simp, fun x => absurd x hn, by simp, by simp, Int.le_refl _,
-      Or.inl rfl, fun _ => rfl, id, Or.inl plain_rfl, id⟩
+      Or.inl rfl, fun _ => rfl, id, Or.inl plain_rfl, id, ⟨rfl, rfl⟩⟩
   · rename_i hn _
     have hs := handshake_spec cfg s f h
     exact ⟨hs.inv, fun e => (hs.ok_ready e).1, fun e _ => (hs.ok_ready e).2.2.2, fun x => absurd x hn, hs.fail, hs.ackok,
-      hs.gmono, hs.fack, hs.fapp, hs.nl, hs.frame, fun _ => hs.dz⟩
+      hs.gmono, hs.fack, hs.fapp, hs.nl, hs.frame, fun _ => hs.dz, hs.own⟩
 
 theorem replicaStep_spec (cfg : Cfg) (s : St) (f : Fault) (h : InvA s) (hst : s.stopped = false) :
-    EvPost s (replicaStep cfg s f).1 (replicaStep cfg s f).2 := by
+    EvPost s (replicaStep cfg s f).1 (replicaStep cfg s f).2 f := by
   unfold replicaStep
   have hi := isReady_spec cfg s f h
   generalize isReady cfg s f = r at hi ⊢
@@ -337,7 +349,7 @@ theorem replicaStep_spec (cfg : Cfg) (s : St) (f : Fault) (h : InvA s) (hst : s.
   cases ok
   · have hf := hi.fail rfl
     simp only [Bool.false_eq_true, if_false]
-    refine ⟨hi.inv, (fun e => by rw [hf] at e; cases e), ⟨?_, ?_, ?_⟩, hi.ackok, hi.gmono, hi.fack, hcov1, hi.nl, hi.frame, hi.dzkeep⟩
+    refine ⟨hi.inv, (fun e => by rw [hf] at e; cases e), ⟨?_, ?_, ?_⟩, hi.ackok, hi.gmono, hi.fack, hcov1, hi.nl, hi.frame, fun d _ => hi.dzkeep d, hi.own⟩
     all_goals (intros; split <;> simp)
   · simp only [if_true]
     have hr := hi.ok_ready rfl
@@ -352,14 +364,15 @@ theorem replicaStep_spec (cfg : Cfg) (s : St) (f : Fault) (h : InvA s) (hst : s.
       simp only [Bool.false_eq_true, if_false]
       refine ⟨hc.inv, (fun e => by rw [hf] at e; cases e), by simp, ?_, by rw [hc.same.2.2.1]; exact hi.gmono,
         by rw [hc.same.2.2.2.1]; exact hi.fack, ?_, fun n => hnl (hi.nl n), frame_trans_plain hi.frame hc.plain,
-        fun d => by rw [hc.same.2.2.2.2]; exact hi.dzkeep d⟩
+        fun d _ => by rw [hc.same.2.2.2.2]; exact hi.dzkeep d,
+        ⟨hc.own.1.trans hi.own.1, hc.own.2.trans hi.own.2⟩⟩
       · rw [hc.same.2.2.1, hc.same.2.2.2.1]
         exact hi.ackok
       · rw [hc.same.2.2.1, hc.same.2.2.2.1]
         exact hcov1
     · simp only [if_true]
       have hrd := hc.ok_ready rfl
-      have hsp := sendPhase_spec s2 f hc.inv hrd.1 (by rw [hc.plain.1.stopped, (frameSame hi.frame).stopped]; exact hst)
+      have hsp := sendPhase_spec s2 f hc.inv hrd.1 (by rw [hc.own.1, hi.own.1]; exact hst)
       have hdz2 : s.dz = false → s.chan = .ready → s2.dz = false := by
         intro d r
         rw [hc.same.2.2.2.2, hi.same_ready r]; exact d
@@ -367,9 +380,10 @@ theorem replicaStep_spec (cfg : Cfg) (s : St) (f : Fault) (h : InvA s) (hst : s.
         intro r
         rw [hc.same.2.2.2.2]; exact hi.ok_dz rfl r
       refine ⟨hsp.inv, fun _ => by rw [hsp.stream]; exact hrd.2,
-        ⟨hsp.label.1, fun d r => hsp.label.2 (hdz2 d r), fun r => hsp.label.2 (hdz2' r)⟩, ?_, ?_, ?_, ?_,
+        ⟨hsp.label.1, fun d r p => hsp.label.2 (hdz2 d r) p, fun r p => hsp.label.2 (hdz2' r) p⟩, ?_, ?_, ?_, ?_,
         fun n => hsp.nl (hnl (hi.nl n)), frame_trans_plain (frame_trans_plain hi.frame hc.plain) hsp.plain,
-        fun d => by rw [hsp.dz, hc.same.2.2.2.2]; exact hi.dzkeep d⟩
+        fun d p => hsp.dz (by rw [hc.same.2.2.2.2]; exact hi.dzkeep d) p,
+        ⟨hsp.own.1.trans (hc.own.1.trans hi.own.1), hsp.own.2.trans (hc.own.2.trans hi.own.2)⟩⟩
       · intro hne
         by_cases h23 : (sendPhase s2 f).1.gack = s2.gack
         · have h1 : s1.gack ≠ s.gack := by rw [← hc.same.2.2.1, ← h23]; exact hne
